@@ -80,15 +80,16 @@ Proof. eexists. split; [vm_compute; reflexivity|]. repeat split; vm_compute; con
 (* Absent/empty NAT on the wire (C12's decoders) composed with the pool selection: a client that sends no NAT
    type is treated as unknown and served only from the unrestricted proxies; a proxy that sends none is
    registered as unknown and kept for unrestricted clients only. *)
+From Coq Require Import String.
 From Snow Require Import Lib.Wire Model.JsonBoundary Model.Messages Proofs.MessagesProofs Proofs.BrokerWireProofs.
 
 Theorem C03_wire_default_client : forall v o n f e,
-  decode_client_poll_body v = Ok (o, n, f) -> absent "nat" v ->
+  decode_client_poll_body v = Ok (o, n, f) -> absent "nat"%string v ->
   natty_of n = NatUnknown /\ eligible (natty_of n) e = e_inheap e && is_unrestricted (e_nat e).
 Proof. exact client_absent_nat_served_from_unrestricted_proxies. Qed.
 
 Theorem C03_wire_default_proxy : forall v r sd pt cl,
-  decode_proxy_poll v = Ok r -> absent "NAT" v ->
+  decode_proxy_poll v = Ok r -> absent "NAT"%string v ->
   natty_of (pq_nat r) = NatUnknown /\
   (forall cn, eligible cn (new_entry sd (natty_of (pq_nat r)) pt cl) = is_unrestricted cn).
 Proof. exact proxy_absent_nat_kept_for_unrestricted_clients. Qed.
